@@ -25,3 +25,17 @@ Record dup_case := {
 Definition dup_ok (c : dup_case) : bool :=
   Ns_eqb (dc_live c) (dc_published c) &&
   match dc_replayed c with Some l => Ns_eqb l (dc_published c) | None => true end.
+
+(* C20 at quiescent points after simultaneous arrivals, publishes and departures *)
+Record gauge_wave := {
+  gw_open : nat; gw_gauge_open : Z;       (* streams open after the arrivals; the gauge then *)
+  gw_total : N; gw_total_seen : N;         (* subscriptions accepted so far; the counter *)
+  gw_updates : N; gw_updates_seen : N;     (* updates accepted so far; the counter *)
+  gw_gauge_closed : Z; gw_total_after : N  (* after the departures: gauge (must be 0) and counter (unchanged) *)
+}.
+Record gauge_case := { gc_waves : list gauge_wave }.
+
+Definition gauge_ok (c : gauge_case) : bool :=
+  forallb (fun w => Z.eqb (gw_gauge_open w) (Z.of_nat (gw_open w)) && N.eqb (gw_total_seen w) (gw_total w) &&
+                    N.eqb (gw_updates_seen w) (gw_updates w) && Z.eqb (gw_gauge_closed w) 0 && N.eqb (gw_total_after w) (gw_total w))
+          (gc_waves c).
